@@ -572,12 +572,19 @@ class Assembler:
                 body_lines.insert_lines(li + 1, ins)
         for w, a, content in blk.sections:
             if w in ("after", "before"):
-                pat, nth = _parse_re(a)
+                each = a.strip().startswith("each ")
+                pat, nth = _parse_re(a.strip()[5:] if each else a)
                 hits = [i for i, (l, o) in enumerate(body_lines.pairs) if o[0] == "src" and re.search(pat, l)]
+                ins = [self._tpl(x, tpl_path, n, w) for x, n in content]
+                if each:
+                    # `before each /re/`: an assertion attached to EVERY occurrence of a statement (e.g. every early return);
+                    # where the code has no such statement there is nothing to attach it to
+                    for i in reversed(hits):
+                        body_lines.insert_lines(i + 1 if w == "after" else i, list(ins))
+                    continue
                 if not hits or (nth is None and len(hits) != 1) or (nth is not None and nth >= len(hits)):
                     raise AssembleError("lost anchor: %s /%s/ matched %d lines in %s" % (w, pat, len(hits), label))
                 i = hits[nth or 0]
-                ins = [self._tpl(x, tpl_path, n, w) for x, n in content]
                 body_lines.insert_lines(i + 1 if w == "after" else i, ins)
         pre = [x for (w, a, c) in blk.sections if w == "pre" for x in c]
         post = [x for (w, a, c) in blk.sections if w == "post" for x in c]
